@@ -139,7 +139,7 @@ Lemma ss_update_ent_c13 : forall c s now round sender alloc value size ext tpe a
   ss_op_wf13 s (OpUpdate sender alloc value size ext tpe add rem own) -> st_c13 s'.
 Proof.
   unfold ss_update_ent; intros c s now round sender alloc value size ext tpe add rem own s' Hs H Hwf.
-  cbv zeta in H. bind_as H a Ea. guard_inv H. guard_inv H. guard_inv H. guard_inv H. guard_inv H. guard_inv H.
+  cbv zeta in H. bind_as H a Ea. guard_inv H. guard_inv H. guard_inv H. guard_inv H. guard_inv H. guard_inv H. guard_inv H.
   bind_as H [s1 a1] E1. bind_as H bl Ebl. bind_as H [s2 a2] E2. bind_as H cost Ec. guard_inv H.
   inversion H; subst. clear H.
   cbn [ss_op_wf13] in Hwf. rewrite Ea in Hwf. apply Z.leb_le in G1.
@@ -161,7 +161,7 @@ Proof.
     - destruct (ss_extend_ent_delta _ _ _ _ _ _ _ E2) as [Hi [Ha [_ Hb]]]; [rewrite Hd1; exact Hsz|].
       split; [congruence|]. split; [congruence|]. intros id b' Hf. destruct (Hb _ _ Hf) as [b0 [Hf0 [X Y]]].
       exists b0. rewrite Hbl1 in Hf0. rewrite Hbk1 in X, Y. auto.
-    - bind_as E2 [sb ab] Eex.
+    - guard_inv E2. bind_as E2 [sb ab] Eex.
       assert (He : al_id ab = al_id a /\ st_allocs sb = st_allocs s /\
                    forall id b', ss_find_blobber id (st_blobbers sb) = Some b' ->
                      exists b0, ss_find_blobber id (st_blobbers s) = Some b0 /\
